@@ -4,7 +4,7 @@
     (tools/props/c14.py).  Oracles (shapely [disjoint], CRS conversion of a
     query polygon and its bounding box) are function parameters. *)
 From Coq Require Import ZArith QArith Qround Qabs List Bool.
-From OG Require Import Base.Result Base.QMinMax.
+From OG Require Import Base.Result Base.QMinMax Base.ZRange.
 Import ListNotations.
 Open Scope Q_scope.
 
@@ -94,9 +94,6 @@ Definition idx_bounds (g : gridspec) (tol : Q) (bounds : Q * Q * Q * Q) : Z * Z 
   let '(iy1, iy2) := (Z.min iy1 iy2, Z.max iy1 iy2) in
   (ix1, iy1, ix2 + 1, iy2 + 1)%Z.
 
-(** Python [range(a, b)] *)
-Definition zrange (a b : Z) : list Z :=
-  map (fun k => (a + Z.of_nat k)%Z) (seq 0 (Z.to_nat (b - a))).
 
 (** GridSpec.tiles: the indices in iteration order (iy outer, ix inner) *)
 Definition tiles (g : gridspec) (tol : Q) (bounds : Q * Q * Q * Q) : list (Z * Z) :=
